@@ -469,7 +469,12 @@ pub fn register_upvalue<T>(
                 // if there is an existing upvalue to this location reuse that
                 c.upvalues.push(NonNull::new_unchecked(upvalue));
             } else {
-                let upvalue = vm.init_upvalue(location)?;
+                let rest = upvalue;
+                let mut upvalue = vm.init_upvalue(location)?;
+                // the upvalues below this location stay in the list
+                if let Some(u) = upvalue.as_upvalue_mut() {
+                    u.next = rest;
+                }
 
                 // keep the open upvalues sorted
                 match prev_upvalue.as_mut().and_then(|u| u.as_upvalue_mut()) {
